@@ -98,7 +98,7 @@ func scenC09(e *Env) func() {
 	p.RespHead, _ = c09Head(e, Pick(e, "HTTP/1.1 200 OK", "HTTP/1.1 204 No Content", "HTTP/1.0 200 OK"), true)
 	n := e.Range(3, 5)
 	p.Conts = append(p.Conts, "") // always one connection with nothing following
-	p.Arrivals = append(p.Arrivals, "silent")
+	p.Arrivals = append(p.Arrivals, Pick(e, "silent", "silent", "silent-split-1", "silent-split-2", "silent-split-3", "silent-bytewise", "silent-split-mid"))
 	for i := 1; i < n; i++ {
 		p.Conts = append(p.Conts, c09Conts[e.Int(len(c09Conts))])
 		p.Arrivals = append(p.Arrivals, Pick(e, "together", "split", "together"))
@@ -126,6 +126,18 @@ func scenC09(e *Env) func() {
 					segs = []Seg{{Data: []byte(p.Head + p.Conts[i])}}
 				case "split":
 					segs = []Seg{{Data: []byte(p.Head), Pause: 3 * time.Second}, {Data: []byte(p.Conts[i])}}
+				case "silent-split-1", "silent-split-2", "silent-split-3", "silent-split-mid":
+					// the head arrives in two reads, nothing follows
+					k := map[string]int{"silent-split-1": 1, "silent-split-2": 2, "silent-split-3": 3, "silent-split-mid": len(p.Head) / 2}[p.Arrivals[i]]
+					if k >= len(p.Head) {
+						k = 1
+					}
+					h := []byte(p.Head)
+					segs = []Seg{{Data: h[:len(h)-k], Pause: 500 * time.Millisecond}, {Data: h[len(h)-k:]}}
+				case "silent-bytewise":
+					for _, b := range []byte(p.Head) {
+						segs = append(segs, Seg{Data: []byte{b}, Pause: time.Millisecond})
+					}
 				default:
 					segs = []Seg{{Data: []byte(p.Head)}}
 				}
